@@ -2,6 +2,7 @@ package props
 
 import (
 	"encoding/json"
+	"errors"
 	"fmt"
 	"math/rand"
 	"sort"
@@ -299,6 +300,52 @@ func c09CfgSig(cfg c09Cfg) string {
 	return name + "/" + own
 }
 
+// c09Refused serves the configuration on connections that refuse its first, middle and last
+// subscription. A service that could not subscribe to everything it owns must not come up
+// (Serve fails): it would announce patterns whose requests reach no subscription.
+func c09Refused(c *core.Ctx, cfg c09Cfg, nsubs int, sig string, desc map[string]interface{}) {
+	if cfg.Pre == "restart" || cfg.Pre == "restart-same" || nsubs == 0 {
+		return
+	}
+	seen := map[int]bool{}
+	for _, k := range []int{1, (nsubs + 1) / 2, nsubs} {
+		if seen[k] {
+			continue
+		}
+		seen[k] = true
+		k := k
+		rg := newRig(cfg.Name, func(s *res.Service) { c09Configure(s, cfg) })
+		rg.C.NoGoID = true
+		rg.C.FailSubscribe = func(subject string, n int) error {
+			if n == k {
+				return errors.New("injected: subscription refused")
+			}
+			return nil
+		}
+		err := rg.start()
+		c.Eval(1)
+		c.Obs("starts_with_a_refused_subscription", 1)
+		if err == nil {
+			d := copyDesc(desc)
+			var refused string
+			var made []string
+			for _, sb := range rg.C.Subs() {
+				if sb.Err != nil {
+					refused = sb.Subject
+				} else {
+					made = append(made, sb.Subject)
+				}
+			}
+			d["refused_subscription"], d["refused_nth"], d["subscriptions"] = refused, k, made
+			if rs := vconn.OnSubject(rg.C.Log(), "system.reset"); len(rs) > 0 {
+				d["reset_payload"] = string(rs[0].Data)
+			}
+			c.Violation("C09/up-despite-refused-subscription:"+sig, fmt.Sprintf("subscription %d (%s) was refused by the connection, yet Serve went on: the service is up and announced its patterns without being subscribed to all of them", k, refused), d)
+			rg.stop()
+		}
+	}
+}
+
 // c09Check checks one configuration on the recording connection.
 func c09Check(c *core.Ctx, cfg c09Cfg) {
 	wantRes, wantAcc := expectedOwnership(cfg)
@@ -343,6 +390,7 @@ func c09Check(c *core.Ctx, cfg c09Cfg) {
 		return
 	}
 	defer rg.stop()
+	c09Refused(c, cfg, len(subs), sig, desc)
 	if len(wantRes) >= 2 || strings.ContainsAny(strings.Join(append(wantRes, wantAcc...), " "), "*>") {
 		c.Distinct(jsonStr(cfg))
 	}
